@@ -119,6 +119,12 @@ def b_chr(ip, st, args, kwargs):
 def int_of_str(ip, st, s, ty):
     """int(s) for a symbolic str: ValueError unless strip(s) matches [+-]?[0-9]+ (underscore separators are not
     modelled: a string containing '_' between digits is treated as invalid -- stated assumption)"""
+    zs0 = S(s)
+    for f in st.pc:
+        if z3.is_app(f) and f.decl().kind() == z3.Z3_OP_SEQ_IN_RE and f.arg(0).eq(zs0) and _digits_only(f.arg(1)):
+            if z3.is_false(z3.simplify(z3.InRe(z3.StringVal(''), f.arg(1)))):
+                # known to be a non-empty string of ASCII digits: int() cannot fail and no stripping takes place
+                return mk(z3.StrToInt(zs0), 'int')
     t = str_strip(ip, st, s, None, 'both', ty)
     tt = S(t)
     d = digits_re()
@@ -134,7 +140,7 @@ def int_of_str(ip, st, s, ty):
 def b_int(ip, st, args, kwargs):
     if not args:
         return 0
-    v = args[0]
+    v = unwrap_opt(ip, st, args[0])
     if len(args) == 2 or 'base' in kwargs:
         base = args[1] if len(args) == 2 else kwargs['base']
         if not is_sym(v) and not is_sym(base):
@@ -592,6 +598,75 @@ def str_strip(ip, st, v, chars, side, ty):
 SPLIT_DEPTH = 3
 
 
+def _flatten_concat(t):
+    if z3.is_app(t) and t.decl().kind() == z3.Z3_OP_SEQ_CONCAT:
+        out = []
+        for c in t.children():
+            out.extend(_flatten_concat(c))
+        return out
+    return [t]
+
+
+def _free_of(st, piece, sep):
+    """is `piece` known (syntactically, from the path condition) not to contain the one-character separator?"""
+    if z3.is_string_value(piece):
+        return sep not in piece.as_string()
+    zsep = zstr(sep)
+    for f in st.pc:
+        if z3.is_not(f):
+            g = f.arg(0)
+            if z3.is_app(g) and g.decl().kind() == z3.Z3_OP_SEQ_CONTAINS and g.arg(0).eq(piece) and g.arg(1).eq(zsep):
+                return True
+        elif z3.is_app(f) and f.decl().kind() == z3.Z3_OP_SEQ_IN_RE and f.arg(0).eq(piece):
+            # membership in a language over digits only
+            if sep not in '0123456789' and _digits_only(f.arg(1)):
+                return True
+    return False
+
+
+def _digits_only(r):
+    k = r.decl().kind()
+    if k == z3.Z3_OP_RE_RANGE:
+        a, b = r.arg(0), r.arg(1)
+        return z3.is_string_value(a) and z3.is_string_value(b) and a.as_string() == '0' and b.as_string() == '9'
+    if k in (z3.Z3_OP_RE_PLUS, z3.Z3_OP_RE_STAR, z3.Z3_OP_RE_CONCAT, z3.Z3_OP_RE_UNION, z3.Z3_OP_RE_OPTION):
+        return all(_digits_only(c) for c in r.children())
+    return False
+
+
+def structural_split(st, s, sep, ty):
+    """exact split of a string that is *syntactically* a concatenation of literal separators and pieces known not to
+    contain the (one-character) separator: no solver reasoning needed, and the result has a concrete spine"""
+    if len(sep) != 1:
+        return None
+    pieces = _flatten_concat(s)
+    fields = [[]]
+    for p in pieces:
+        if z3.is_string_value(p):
+            txt = p.as_string()
+            if '\\' in txt:
+                return None
+            segs = txt.split(sep)
+            for i, seg in enumerate(segs):
+                if i:
+                    fields.append([])
+                if seg:
+                    fields[-1].append(zstr(seg))
+            continue
+        if not _free_of(st, p, sep):
+            return None
+        fields[-1].append(p)
+    out = []
+    for f in fields:
+        if not f:
+            out.append('' if ty == 'str' else b'')
+        elif len(f) == 1:
+            out.append(mk(f[0], ty))
+        else:
+            out.append(mk(z3.Concat(*f), ty))
+    return out
+
+
 def str_split(ip, st, v, sep, maxsplit, ty):
     """s.split(sep[, maxsplit]) with a concrete non-empty separator.  The result is a fresh sequence constrained by
     sound facts unfolded SPLIT_DEPTH fields deep: field k is the text up to the next separator, the list ends at the
@@ -607,6 +682,10 @@ def str_split(ip, st, v, sep, maxsplit, ty):
     s = S(v)
     zsep = zstr(sep)
     n = len(sep)
+    if maxsplit is None:
+        parts = structural_split(st, s, sep, ty)
+        if parts is not None:
+            return parts
     if maxsplit is None and ty == 'str':
         # the uninterpreted spec function split(s, sep) (so equal inputs give equal lists), constrained by sound facts
         parts = ip.specs.call(ip, st, 'split', [v, sep], {}).t
